@@ -41,8 +41,8 @@ class Cfg:
         if self.kind == 'transform':
             return ['forward', 'inverse']
         if self.kind == 'dist':
-            return ['log_prob', 'sample', 'sample_and_log_prob']
-        return ['log_prob', 'sample', 'sample_and_log_prob', 'transform_to_noise']
+            return ['log_prob', 'sample', 'sample_and_log_prob', 'sample_batched']
+        return ['log_prob', 'sample', 'sample_and_log_prob', 'sample_batched', 'transform_to_noise']
 
     def get_atoms(self, mode):
         if self.atoms is not None:
@@ -257,6 +257,11 @@ def registry():
     add('QRLinear', 'transform', lambda: T.QRLinear(F4, num_householder=3), S, cache=True)
     add('SVDLinear', 'transform', lambda: T.SVDLinear(F4, num_householder=4, identity_init=False), S, cache=True)
     add('HouseholderSequence', 'transform', lambda: T.HouseholderSequence(F4, 3), S)
+    # one feature: reflections of a 1-vector, 1x1 triangular factors (special cases that may return or write through the caller's tensor)
+    add('SVDLinear/features1', 'transform', lambda: T.SVDLinear(1, num_householder=2, identity_init=False), (1,), cache=True)
+    add('QRLinear/features1', 'transform', lambda: T.QRLinear(1, num_householder=1), (1,), cache=True)
+    add('LULinear/features1', 'transform', lambda: T.LULinear(1, identity_init=False), (1,), cache=True)
+    add('HouseholderSequence/features1-even', 'transform', lambda: T.HouseholderSequence(1, 2), (1,))
     add('OneByOneConvolution', 'transform', lambda: T.OneByOneConvolution(4), IMG, cache=True, random_ctor=True)
     # --- normalisation ------------------------------------------------------------------------------
     add('BatchNorm', 'transform', lambda: T.BatchNorm(F4), S, batch_stats=True, random_ctor=True, note='running statistics')
